@@ -133,6 +133,11 @@ def cases(tier, seed):
             for sh in ([1, 2], [2, 1]):
                 out.append({'prod': 'V', 'shape': sh, 'mask': 3, 'vals': [v, other], 'layout': 'csr'})
                 out.append({'prod': 'V', 'shape': sh, 'mask': 3, 'vals': [other, v], 'layout': 'csc'})
+    # Z: rows / columns whose mixed-sign values cancel
+    for shape, vals in D.CANCEL:
+        for lay in ('csr', 'csc', 'unsorted'):
+            out.append({'prod': 'Z', 'shape': list(shape), 'mask': (1 << len(vals)) - 1, 'vals': list(vals),
+                        'layout': lay})
     for dt in range(1, len(DATES)):
         for shape, mask in FIXED:
             out.append({'prod': 'B-date', 'shape': list(shape), 'mask': mask, 'rot': rot, 'header': 1,
